@@ -8,8 +8,8 @@ EXTENDS JqValue
 S(str) == VStr(Chars(str))
 \* ---- the operand universe (the harness renders a value as a literal, as a
 \* variable assigned beforehand, or as a field of the input document)
-Numbers == <<Zero, NegZero, Int(1), Int(-1), Int(2), Int(3), Int(7), Num(1, 2, 0), Num(5, 2, 0), Num(-7, 2, 0),
-             Num(1, 1, 53), Num(1, 1, -20)>>
+Numbers == <<Zero, NegZero, I(1), I(-1), I(2), I(3), I(7), Num(1, 2, 0), Num(5, 2, 0), Num(-7, 2, 0),
+             Num(1, 1, 53), Num(1, 1, -20), Num(1, 1, 70)>>
 Strings == <<S(""), S("0"), S("5"), S("-3"), S("2.5"), S("1e2"), S("10"), S("9"), S(" 1"), S("1 "), S("abc"), S("5x"),
              VStr(<<"C3", "A9">>)>>
 Others == <<VBool(TRUE), VBool(FALSE), VNull, VUnset, VArr(0), VArr(1), VObj(0), VObj(1),
@@ -22,7 +22,7 @@ PatStrs == [i \in 1..Len(Patterns) |-> VStr(Patterns[i])]
 PatRegexes == [i \in 1..Len(Patterns) |-> VRegex(Patterns[i])] \o <<VRegex(Chars("2.5")), VRegex(<<>>)>>
 W == U \o PatStrs \o PatRegexes
 NU == Len(U)
-NL == NU + Len(PatStrs)
+NLeft == NU + Len(PatStrs)
 NW == Len(W)
 
 IsNames == <<"number", "string", "bool", "array", "object", "regex", "function", "null", "unknown", "foo">>
@@ -33,7 +33,7 @@ vars == <<fam, op, li, ri, done>>
 Init ==
   /\ done = FALSE /\ ri = 0
   /\ \/ fam = "bin" /\ op \in (ArithOps \cup CmpOps \cup LogicOps) /\ li \in 1..NU
-     \/ fam = "match" /\ op \in MatchOps /\ li \in 1..NL
+     \/ fam = "match" /\ op \in MatchOps /\ li \in 1..NLeft
      \/ fam = "un" /\ op \in UnOps /\ li \in 1..NU
      \/ fam = "inc" /\ op \in {"++", "--"} /\ li \in 1..NU
      \/ fam = "is" /\ op = "is" /\ li \in 1..NU
@@ -52,7 +52,11 @@ ZeroDividend(o, l, r) ==
   \/ o = "%" /\ IsZero(Trunc(NumOf(l))) /\ ~IsZero(Trunc(NumOf(r)))
 \* same-operand-match: `x ~ x` with both operands the same variable answers true without looking at the pattern
 SameOperand(o, l, r) == o \in MatchOps /\ l = r /\ r.k \in {"str", "regex"}
+\* mod-int-overflow: % converts its operands to 64-bit integers; beyond 2^63 the result is platform-defined
+ModOverflow(o, l, r) == o = "%" /\ (Beyond63(Trunc(NumOf(l))) \/ Beyond63(Trunc(NumOf(r))))
+AnyOutcome == [ok |-> TRUE, v |-> [k |-> "any"]]
 Devs(o, l, r) ==
+  (IF ModOverflow(o, l, r) THEN <<[name |-> "mod-int-overflow", mode |-> "", res |-> AnyOutcome]>> ELSE <<>>) \o
   (IF ZeroDividend(o, l, r) THEN <<[name |-> "zero-dividend", mode |-> "", res |-> Err]>> ELSE <<>>) \o
   (IF SameOperand(o, l, r) /\ Match(o, l, r) # Ok(VBool(o = "~"))
      THEN <<[name |-> "same-operand-match", mode |-> "same", res |-> Ok(VBool(o = "~"))]>> ELSE <<>>)
@@ -81,16 +85,16 @@ NumEq(x, y) == x.k = "num" /\ y.k = "num" /\ x.n = y.n /\ x.d = y.d /\ x.e = y.e
 
 \* --- an independent, kind-by-kind description of "num(v) = 0" and "|num(v)| < 1"
 NumericStringValues ==
-  {<<Chars("0"), Zero>>, <<Chars("5"), Int(5)>>, <<Chars("-3"), Int(-3)>>, <<Chars("2.5"), Num(5, 2, 0)>>,
-   <<Chars("1e2"), Int(100)>>, <<Chars("10"), Int(10)>>, <<Chars("9"), Int(9)>>}
+  {<<Chars("0"), Zero>>, <<Chars("5"), I(5)>>, <<Chars("-3"), I(-3)>>, <<Chars("2.5"), Num(5, 2, 0)>>,
+   <<Chars("1e2"), I(100)>>, <<Chars("10"), I(10)>>, <<Chars("9"), I(9)>>}
 NumericStrings == {p[1] : p \in NumericStringValues}
 ZeroLike(v) ==
   CASE v.k = "num" -> v.n = 0
     [] v.k = "bool" -> ~v.b
     [] v.k = "str" -> v.s \notin (NumericStrings \ {Chars("0")})
     [] OTHER -> TRUE
-TruncZeroLike(v) == ZeroLike(v) \/ (v.k = "num" /\ v.e < 0 /\ v.d = 1 /\ Abs(v.n) < Pow(2, IF -v.e > 20 THEN 20 ELSE -v.e))
-                                \/ (v.k = "num" /\ v.d > 1 /\ v.e <= 0 /\ Abs(v.n) < v.d)
+\* the universe's fractions are dyadic: n * 2^e with e < 0
+TruncZeroLike(v) == ZeroLike(v) \/ (v.k = "num" /\ v.d = 1 /\ v.e < 0 /\ Abs(v.n) < Pow(2, IF -v.e > 20 THEN 20 ELSE -v.e))
 ErrExpected(o, l, r) ==
   \/ o = "/" /\ ZeroLike(r)
   \/ o = "%" /\ TruncZeroLike(r)
@@ -107,7 +111,15 @@ CellLaw(o, l, r) ==
        /\ o = "+" => (res.v.k = "str") = ("str" \in {l.k, r.k})
        /\ o = "+" /\ res.v.k = "str" => Len(res.v.s) = Len(StrOf(l)) + Len(StrOf(r))
   /\ (res.ok /\ res.v.k = "unfixed") = ~CmpFixed(o, l, r)
-  /\ res.v.k # "undefined"
+  /\ res.ok => res.v.k # "undefined"
+
+\* the numbers that occur as num() of an operand, in increasing order (hand-written)
+NumOrder == <<Num(-7, 2, 0), I(-3), I(-1), Zero, Num(1, 1, -20), Num(1, 2, 0), I(1), I(2), Num(5, 2, 0), I(3),
+              I(5), I(7), I(9), I(10), I(100), Num(1, 1, 53), Num(1, 1, 70)>>
+RankOf(x) == CHOOSE i \in 1..Len(NumOrder) : NumEq(NumOrder[i], x)
+NumOrderLaw ==
+  /\ \A i, j \in 1..Len(NumOrder) : NumCmp(NumOrder[i], NumOrder[j]) = (IF i < j THEN -1 ELSE IF i > j THEN 1 ELSE 0)
+  /\ NumCmp(Zero, NegZero) = 0 /\ NumCmp(NegZero, Zero) = 0
 
 \* 3.4 / 3.5 and arithmetic identities on one ordered pair
 PairLaws(l, r) ==
@@ -131,8 +143,8 @@ PairLaws(l, r) ==
   \* unset: < and > are true, == is false, whatever the other side is
   /\ "unset" \in {l.k, r.k} => lt = Ok(VBool(TRUE)) /\ gt = Ok(VBool(TRUE)) /\ eq = Ok(VBool(FALSE))
   \* strings against strings is bytewise, everything else goes through num()
-  /\ Plain(l) /\ Plain(r) /\ "null" \notin {l.k, r.k} /\ ~(l.k = "str" /\ r.k = "str") =>
-       B(lt) = (SignOf(Sub(NumOf(l), NumOf(r))) < 0)
+  /\ Plain(l) /\ Plain(r) /\ "null" \notin {l.k, r.k} =>
+       B(lt) = (IF l.k = "str" /\ r.k = "str" THEN StrCmp(l.s, r.s) < 0 ELSE RankOf(NumOf(l)) < RankOf(NumOf(r)))
   \* logic: booleans, De Morgan, short circuit
   /\ Logic("&&", l, r) = Ok(VBool(Truthy(l) /\ Truthy(r)))
   /\ Logic("||", l, r) = Ok(VBool(Truthy(l) \/ Truthy(r)))
@@ -162,14 +174,14 @@ ValueLaws(v) ==
   /\ UnOp("+", v).v = NumOf(v)
   /\ NumEq(UnOp("-", v).v, Sub(Zero, NumOf(v)))
   /\ NumEq(Arith("+", v, Zero).v, NumOf(v)) \/ v.k = "str"
-  /\ NumEq(Arith("*", v, Int(1)).v, NumOf(v))
+  /\ NumEq(Arith("*", v, I(1)).v, NumOf(v))
   /\ Cardinality({nm \in TypeNames : B(IsOp(v, nm))}) = 1
   /\ ~B(IsOp(v, "foo"))
   /\ v.k \in Kinds
   /\ IncDec("++", TRUE, v).value = IncDec("++", FALSE, v).stored
   /\ IncDec("++", FALSE, v).value = NumOf(v)
-  /\ LET u == IncDec("++", TRUE, v).value IN u.k = "num" => NumEq(Sub(u, Int(1)), NumOf(v))
-  /\ LET u == IncDec("--", TRUE, v).value IN u.k = "num" => NumEq(Add(u, Int(1)), NumOf(v))
+  /\ LET u == IncDec("++", TRUE, v).value IN u.k = "num" => NumEq(Sub(u, I(1)), NumOf(v))
+  /\ LET u == IncDec("--", TRUE, v).value IN u.k = "num" => NumEq(Add(u, I(1)), NumOf(v))
   \* the numeric value of a string, against the hand-written list
   /\ v.k = "str" => NumOf(v) = (IF v.s \in NumericStrings THEN (CHOOSE p \in NumericStringValues : p[1] = v.s)[2] ELSE Zero)
   \* printing a number and reading it back (short texts; longer ones overflow the model's parser)
@@ -187,8 +199,6 @@ Laws == done =>
   /\ fam \in {"bin", "match"} => CellLaw(op, W[li], W[ri])
   /\ fam = "bin" /\ op = "==" => PairLaws(U[li], U[ri])
   /\ fam = "match" /\ op = "~" => PairLaws(W[li], W[ri])
-  /\ fam = "un" /\ op = "!" => ValueLaws(U[li])
-  /\ fam = "is" /\ ri = 1 => ValueLaws(W[li]) /\ ValueLaws(W[NW + 1 - li])
 
 \* bytewise order on strings is a total order (checked once, on all triples)
 StrOrderLaw ==
@@ -196,6 +206,24 @@ StrOrderLaw ==
   /\ \A a, b \in SS : StrCmp(a, b) = -StrCmp(b, a) /\ (StrCmp(a, b) = 0) = (a = b)
   /\ \A a, b, c \in SS : StrCmp(a, b) < 0 /\ StrCmp(b, c) < 0 => StrCmp(a, c) < 0
   /\ StrCmp(Chars("10"), Chars("9")) < 0 /\ StrCmp(<<>>, Chars(" 1")) < 0 /\ StrCmp(Chars("x"), <<"C3", "A9">>) < 0
+\* anchors quoted in DESIGN.md 3.4
+Anchors ==
+  /\ Compare("<", S("10"), S("9")) = Ok(VBool(TRUE)) /\ Compare("<", I(10), S("9")) = Ok(VBool(FALSE))
+  /\ Compare("==", VBool(TRUE), I(1)) = Ok(VBool(TRUE)) /\ Compare("==", S("abc"), Zero) = Ok(VBool(TRUE))
+  /\ Compare("==", S("5"), I(5)) = Ok(VBool(TRUE)) /\ Compare("<", VNull, I(-1)) = Ok(VBool(TRUE))
+  /\ Compare("<", VNull, S("")) = Ok(VBool(TRUE)) /\ Compare("==", VNull, Zero) = Ok(VBool(FALSE))
+  /\ Arith("/", Zero, I(5)) = Ok(Zero) /\ Arith("%", Zero, I(5)) = Ok(Zero)
+  /\ Arith("%", I(-7), I(3)) = Ok(I(-1)) /\ Arith("%", Num(79, 10, 0), Num(29, 10, 0)) = Ok(I(1))
+  /\ Arith("+", I(1), S("x")) = Ok(S("1x")) /\ Arith("+", Num(1, 4, 0), S("")) = Ok(S("0.25"))
+  /\ NumText(Num(1, 1, 53)) = Chars("9007199254740992") /\ NumText(Num(1, 1, -20)) = Chars("0.00000095367431640625")
+  /\ NumText(Num(-7, 2, 0)) = Chars("-3.5") /\ NumText(NegZero) = Chars("-0")
+  /\ Rem(Num(1, 1, 53), I(3)) = I(2) /\ Rem(Num(1, 1, 53), I(7)) = I(4) /\ Rem(Num(1, 1, 70), I(7)) = I(2)
+  /\ Rem(Num(1, 1, 70), Num(1, 1, 53)) = Zero /\ Rem(Num(1, 1, 53), Num(1, 1, 70)) = Num(1, 1, 53) /\ Rem(I(-7), I(2)) = I(-1)
+  /\ Rem(Num(3, 1, 60), Num(1, 1, 58)) = Zero /\ Rem(Num(3, 1, 60), Num(5, 1, 58)) = Num(1, 1, 59)
+  /\ Beyond63(Num(1, 1, 70)) /\ Beyond63(Num(1, 1, 63)) /\ ~Beyond63(Num(1, 1, 62)) /\ ~Beyond63(Num(63, 1, 57)) /\ Beyond63(Num(33, 1, 58))
 ASSUME UniverseOK
 ASSUME StrOrderLaw
+ASSUME NumOrderLaw
+ASSUME Anchors
+ASSUME \A i \in 1..NW : ValueLaws(W[i])
 =============================================================================
